@@ -161,7 +161,7 @@ impl Block {
         for &(m, a, ugly) in &self.combos {
             for &first in &firsts {
                 out.push(Job::new(
-                    format!("{}{}-p{}-k{}-n{}-nx{}-map{}-alpha{}-{}-first{}", if self.sat { "saturated-" } else { "" }, self.kind, self.p, self.kl, self.n, self.nx, m, ALPHAS[a], if ugly { "ugly" } else { "plain" }, if first == NO_FIRST { "any".to_string() } else { first.to_string() }),
+                    format!("{}-p{}-k{}-n{}-nx{}-map{}-alpha{}-{}-first{}", match (self.sat, self.kind) { (false, k) => k, (true, "multiset") => "saturated-lattice-mset", _ => "saturated-lattice-seq" }, self.p, self.kl, self.n, self.nx, m, ALPHAS[a], if ugly { "ugly" } else { "plain" }, if first == NO_FIRST { "any".to_string() } else { first.to_string() }),
                     json!({"kind": self.kind, "p": self.p, "kl": self.kl, "n": self.n, "nx": self.nx, "map": m, "alpha": a, "ugly": ugly, "first": first, "seed": seed, "sat": self.sat}),
                 ));
             }
@@ -190,7 +190,7 @@ pub fn plan(t: bool, seed: u64, jobs: &mut Vec<Job>) {
     for &n in sat_struct_n(t) {
         for p in 1..=6usize {
             for (li, l) in LAYOUTS.iter().enumerate() {
-                jobs.push(Job::new(format!("saturated-structured-n{}-p{}-k2-{}", n, p, l), json!({"kind": "structured", "n": n, "p": p, "k": 2, "layout": li, "seed": seed, "sat": true, "thorough": t})));
+                jobs.push(Job::new(format!("saturated-formula-n{}-p{}-k2-{}", n, p, l), json!({"kind": "structured", "n": n, "p": p, "k": 2, "layout": li, "seed": seed, "sat": true, "thorough": t})));
             }
         }
     }
@@ -397,6 +397,7 @@ struct SatDiag {
     mis_at_accepted: f64,
     mis_at_trial: f64,
     accepted: usize,
+    iterations: usize,
     panicked: bool,
 }
 
@@ -426,7 +427,10 @@ fn saturation_diagnostics(x: &[Vec<f64>], yi: &[usize], pos: usize, alpha: f64, 
     let x0 = DenseMatrix::from_2d_vec(&vec![vec![0.0; p + 1]]);
     let ls: Backtracking<f64> = Backtracking { order: FunctionOrder::THIRD, ..Default::default() };
     let opt: LBFGS<f64> = Default::default();
-    d.panicked = mc::guard(|| opt.optimize(&f, &df, &x0, &ls)).is_err();
+    match mc::guard(|| opt.optimize(&f, &df, &x0, &ls)) {
+        Ok(r) => d.iterations = r.iterations,
+        Err(_) => d.panicked = true,
+    }
     let zero = vec![0.0; p + 1];
     let mut last_df: Vec<f64> = Vec::new();
     for (is_df, w) in log.borrow().iter() {
@@ -547,6 +551,16 @@ pub fn fit_case(c: &Case) {
             let ma = s.iter().fold(0.0f64, |m, v| m.max(v.abs()));
             ma - mx > 690.0
         });
+    // input class (two classes): at the returned parameters some training row has a linear score
+    // 15 < s <= 16, i.e. just past the point where the library's ln_1pe switches to "s" and drops
+    // the exp(-s) term of the objective (a downward jump of 3e-7 at s = 15) while its sigmoid, i.e.
+    // the gradient, is still exact: the optimiser can get stuck on that spurious step (round 2,
+    // defect D5; the two instances found have s = 15.00000000002 and s = 15.31)
+    let ln1pe_zone = k == 2
+        && x.iter().any(|row| {
+            let s = row.iter().zip(&libw[0]).map(|(a, b)| a * b).sum::<f64>() + libw[0][p];
+            s > 15.0 && s <= 16.0
+        });
     let judge = |perm: &[usize]| -> Judged {
         let mut viols = Vec::new();
         let mut pred_viols = Vec::new();
@@ -569,7 +583,13 @@ pub fn fit_case(c: &Case) {
         if c.alpha > 0.0 && !(ratio <= STATIONARITY) {
             let (_, j) = refs::arg_inf_norm(&g);
             let comp = if gn.is_nan() { "nan" } else if j == p { "intercept-component" } else { "weight-component" };
-            let comp = if dominated { "scores-dominated-by-a-negative-one".to_string() } else { comp.to_string() };
+            let comp = if dominated {
+                "scores-dominated-by-a-negative-one"
+            } else if ln1pe_zone {
+                "score-just-past-ln_1pe-switch"
+            } else {
+                comp
+            };
             viols.push((
                 format!("logreg.fit:gradient-not-negligible:{}:{}:{}", model, xclass, comp),
                 format!("{}: |grad|_inf = {:e} at the returned parameters {:?} vs {:e} at zero (ratio {:e} > {:e}); gradient {:?}", header(), gn, libw, g0n, ratio, STATIONARITY, g),
@@ -688,6 +708,12 @@ pub fn fit_case(c: &Case) {
         }
         if d.panicked {
             mc::count("saturated_reference_run_panicked");
+        }
+        if d.iterations > 30 {
+            mc::count("saturated_reference_run_more_than_30_iterations");
+        }
+        if d.iterations > 100 {
+            mc::count("saturated_reference_run_more_than_100_iterations");
         }
         if overlapping_rows(&x, &yi) {
             mc::count("saturated_overlapping(same x, different labels)");
